@@ -16,8 +16,10 @@ Ensures at the end of the region, unless TealInternalError was raised:
                the (id, reserved) pairs alone (C11)
   (order)      automatic numbers are handed out in ascending id order
 Raises TealInternalError only for a duplicate requested id or more than 256 slots, or when a routine's validateSlots reports errors.
-The bound `number < 256` is NOT proved here (it needs a pigeonhole argument over the set's cardinality); it stays with the bounded
-stand-in of C10 (252..300 live variables).
+  (bound)      every number is < 256: the program is rejected when allSlots has more than 256 elements, and the scan position never
+               exceeds |allSlots| - 1 - by the pigeonhole lemma `scan_position_lt_card` (lemmas/Pigeonhole.lean, Lean 4 + Mathlib,
+               re-checked by ./check C10), whose hypothesis (every index below the scan position is the number of a slot other than
+               the current one) is discharged here from the ghost witnesses.
 Summaries: `sorted(allSlots, key=lambda slot: slot.id)` = a duplicate-free enumeration of the set in non-decreasing id order (syntactic
 guard); `start.validateSlots(slotsInUse=global_slots)` = the C17 contract's result list (only its emptiness matters here) - the callee
 hook checks that it is given exactly the global slot set.
@@ -208,11 +210,15 @@ class AssignSlots(Contract):
     # ---- loop 2 / 3: numbering -----------------------------------------------------------------------------------------------
     def havoc_number(self, ctx, env, it):
         ctx.ghost["auto"] = z3.Array(fresh_name("autoNumbers"), I_, B_)
+        ctx.ghost["wa"] = z3.Array(fresh_name("autoWitness"), I_, I_)
+        ctx.ghost["wa_pre"] = ctx.ghost["wa"]                       # loop-head values, used by the pigeonhole hypothesis
+        ctx.ghost["asg_pre"] = env["slotAssignments"].val
 
     def step_number(self, ctx, env, it, broke):
         _, resf = self.heap(ctx)
         slot = env["slot"].term
         ctx.ghost["auto"] = z3.If(z3.Select(resf, slot), ctx.ghost["auto"], z3.Store(ctx.ghost["auto"], env["nextSlotIndex"], z3.BoolVal(True)))
+        ctx.ghost["wa"] = z3.If(z3.Select(resf, slot), ctx.ghost["wa"], z3.Store(ctx.ghost["wa"], env["nextSlotIndex"], it.k))
 
     def reserved_facts(self, ctx, RES):
         """what loop 0 established about the whole set (stated over the set, not over its enumeration)"""
@@ -230,7 +236,29 @@ class AssignSlots(Contract):
         if it.phase == "init":
             ctx.ghost["RES"] = ids.member          # the requested ids recorded by loop 0
             ctx.ghost["auto"] = z3.K(I_, z3.BoolVal(False))
-        RES, AUTO = ctx.ghost["RES"], ctx.ghost["auto"]
+            ctx.ghost["wa"] = z3.K(I_, z3.IntVal(-1))
+            # which reserved slot requested id x: read off loop 0's witness (definition of a ghost array)
+            seq0 = ctx.ghost["__set_enum__"][id(ctx.ghost["all"])]
+            rw = z3.Array("reservedSlotOfId", I_, I_)
+            xx = z3.Int("rwx!")
+            ctx.assume(z3.ForAll([xx], z3.Select(rw, xx) == z3.Select(seq0.arr, z3.Select(ctx.ghost["w0"], xx))))
+            ctx.ghost["rw"] = rw
+        RES, AUTO, WA, RW = ctx.ghost["RES"], ctx.ghost["auto"], ctx.ghost["wa"], ctx.ghost["rw"]
+        al = ctx.ghost["all"]
+        if it.phase == "preserved":
+            # pigeonhole (lemmas/Pigeonhole.lean, scan_position_lt_card): if every index below the scan position is the number of a slot of
+            # allSlots other than the current one, the scan position is at most |allSlots| - 1.   T = allSlots, cur = the slot just numbered,
+            # num = requested id for reserved slots / assigned number otherwise, witness a(x) = the reserved slot with id x or the
+            # processed automatic slot numbered x.
+            cur = z3.Select(S.arr, it.k - 1)
+            xh = z3.Int("phx!")
+            a_of = z3.If(z3.Select(RES, xh), z3.Select(RW, xh), z3.Select(S.arr, z3.Select(ctx.ghost["wa_pre"], xh)))
+            vnum = lambda a: z3.If(z3.Select(resf, a), z3.Select(idf, a), z3.Select(ctx.ghost["asg_pre"], a))
+            hyp = z3.ForAll([xh], z3.Implies(z3.And(xh >= 0, xh < nxt), z3.And(z3.Select(al.member, a_of), a_of != cur, vnum(a_of) == xh)))
+            is_auto = z3.Not(z3.Select(resf, cur))
+            ctx.oblige("assignScratchSlotsToSubroutines/loop2/pigeonhole-hypothesis-holds-when-an-automatic-number-is-handed-out",
+                       z3.Implies(is_auto, z3.And(hyp, z3.Select(al.member, cur))))
+            ctx.assume(z3.Implies(z3.And(is_auto, hyp, z3.Select(al.member, cur)), nxt + 1 <= al.card))     # conclusion of the Lean lemma
         el = lambda x: z3.Select(S.arr, x)
         num = lambda s: z3.Select(asg.val, s)
         i, j, x = z3.Int("i2!"), z3.Int("j2!"), z3.Int("x2!")
@@ -241,8 +269,13 @@ class AssignSlots(Contract):
             ("automatic-numbers-avoid-requested-ids", z3.ForAll([x], z3.Not(z3.And(z3.Select(RES, x), z3.Select(AUTO, x))))),
             ("dense-below-scan-position", z3.ForAll([x], z3.Implies(z3.And(x >= 0, x < nxt), z3.Select(ids.member, x)))),
             ("automatic-numbers-at-most-scan-position", z3.ForAll([x], z3.Implies(z3.Select(AUTO, x), z3.And(x >= 0, x <= nxt)))),
+            ("requested-ids-have-their-slot", z3.ForAll([x], z3.Implies(z3.Select(RES, x), z3.And(z3.Select(al.member, z3.Select(RW, x)), z3.Select(resf, z3.Select(RW, x)),
+                                                                                                     z3.Select(idf, z3.Select(RW, x)) == x)))),
+            ("automatic-numbers-have-their-slot", z3.ForAll([x], z3.Implies(z3.Select(AUTO, x), z3.And(z3.Select(WA, x) >= 0, z3.Select(WA, x) < k, z3.Not(z3.Select(resf, el(z3.Select(WA, x)))),
+                                                                                                       num(el(z3.Select(WA, x))) == x)))),
+            ("at-most-256-slots", al.card <= 256),
             ("numbered-so-far", z3.ForAll([i], z3.Implies(z3.And(i >= 0, i < k), z3.And(
-                z3.Select(asg.has, el(i)), z3.Select(ids.member, num(el(i))),
+                z3.Select(asg.has, el(i)), z3.Select(ids.member, num(el(i))), num(el(i)) < 256,
                 z3.If(z3.Select(resf, el(i)), num(el(i)) == z3.Select(idf, el(i)), z3.Select(AUTO, num(el(i)))))))),
             ("injective-so-far", z3.ForAll([i, j], z3.Implies(z3.And(i >= 0, i < j, j < k), num(el(i)) != num(el(j))))),
             ("automatic-numbers-ascend", z3.ForAll([i, j], z3.Implies(z3.And(i >= 0, i < j, j < k, z3.Not(z3.Select(resf, el(i))), z3.Not(z3.Select(resf, el(j)))), num(el(i)) < num(el(j))))),
@@ -272,6 +305,7 @@ class AssignSlots(Contract):
         ctx.oblige("post/identity-on-requested-ids", z3.ForAll([a], z3.Implies(z3.And(mem(a), z3.Select(resf, a)), num(a) == z3.Select(idf, a))))
         ctx.oblige("post/injective", z3.ForAll([a, b], z3.Implies(z3.And(mem(a), mem(b), a != b), num(a) != num(b))))
         ctx.oblige("post/non-negative", z3.ForAll([a], z3.Implies(mem(a), num(a) >= 0)))
+        ctx.oblige("post/every-number-below-256", z3.ForAll([a], z3.Implies(mem(a), num(a) < 256)))
         ctx.oblige("post/automatic-numbers-in-id-order", z3.ForAll([a, b], z3.Implies(z3.And(mem(a), mem(b), z3.Not(z3.Select(resf, a)), z3.Not(z3.Select(resf, b)),
                                                                                            z3.Select(idf, a) < z3.Select(idf, b)), num(a) < num(b))))
 
